@@ -23,7 +23,8 @@ QUIRKS = {1: 'intdiv-mod-floor', 2: 'right$-zero-length', 3: 'loop-condition-bit
           4: 'for-range-arithmetic-overflow', 5: 'mid$-start-beyond-end',
           6: 'pow-integral-typed', 7: 'condition-converted-to-integer',
           8: 'const-ignores-type-suffix', 9: 'int-typed-long', 10: 'len-instr-typed-long',
-          11: 'double-overflow-gives-inf', 12: 'restore-rewinds-to-last-part'}
+          11: 'double-overflow-gives-inf', 12: 'restore-rewinds-to-last-part',
+          13: 'integral-variable-needs-integer-numeral'}
 ALLQ = sorted(QUIRKS)
 FUEL = 400000
 
@@ -270,10 +271,20 @@ def matrix_suite(ctx, rn, tier):
               for a in progmatrix.STRS for b in progmatrix.STRS]
     ucases = [(op, ty, a) for op in (1, 2) for ty in (G.I, G.L, G.S, G.D)
               for a in (progmatrix.QUICK_VALS if quick else progmatrix.VALS)[ty]]
+    def in_quick(c):
+        return c[3] in progmatrix.QUICK_VALS[c[1]] and c[4] in progmatrix.QUICK_VALS[c[2]]
     if quick:
-        # a deterministic third of the risky single-case programs, permuted by the seed
+        # 300 of the error cases, chosen by the seed
         ctx.rng.shuffle(risky)
-        risky = sorted(risky[:len(risky) // 3])
+        risky = sorted(risky[:300])
+    else:
+        # every error case over the quick value set (so quick is a subset whatever
+        # the seed), and up to 5000 of the others, chosen by the seed
+        rq = [c for c in risky if in_quick(c)]
+        ro = [c for c in risky if not in_quick(c)]
+        ctx.rng.shuffle(ro)
+        ctx.bump('matrix:error-cases-not-run(thorough cap)', max(0, len(ro) - 5000))
+        risky = sorted(rq + ro[:5000])
     progs = []
     bsz = 150
     for i in range(0, len(calm), bsz):
@@ -286,8 +297,9 @@ def matrix_suite(ctx, rn, tier):
         b.add(c)
     progs.append(b.finish())
     # unary: overflow cases (-(-32768)) alone
-    ucalm = [c for c in ucases if not (c[0] == 1 and c[1] in (G.I, G.L) and
-                                       c[2] == (-32768 if c[1] == G.I else -2147483648))]
+    ucalm = [c for c in ucases
+             if not (c[0] == 1 and c[1] in (G.I, G.L) and c[2] == (-32768 if c[1] == G.I else -2147483648))
+             and not (c[0] == 2 and c[1] in (G.S, G.D) and abs(c[2]) >= 2147483647.5)]
     b = progmatrix.Batch()
     for c in ucalm:
         b.add_unary(c)
@@ -308,7 +320,7 @@ def matrix_suite(ctx, rn, tier):
         f'({"reduced set, 7 per type" if quick else "11-15 per type"}) + 7 string operators x 36 pairs + '
         f'NEG/NOT x 4 types: {ncases} expressions `PRINT a <op> b` with operands READ into typed '
         f'variables; {len(calm)} error-free ones batched {bsz} per program, {len(singles)} error '
-        f'cases one per program{" (a seeded third of them)" if quick else ""}; each program at the '
+        f'cases one per program{" (300 of them, chosen by the seed)" if quick else " (all over the quick value set + up to 5000 others)"}; each program at the '
         f'six configurations; non-trivial = distinct (operator, type pair)')
 
     def sig_single(p, name):
@@ -396,18 +408,18 @@ def random_suite(ctx, rn, tier, seed):
     ]
     # quick is a prefix of thorough: program k is the same program in both tiers
     progs = []
-    for k in range(n):
+    for k in range(int(os.environ.get('C01_START', 0)), n):
         r = (k * 0.6180339887) % 1.0
         acc = 0.0
         for feats, w in profiles:
             acc += w
             if r < acc:
                 break
-        p = progrand.random_program(f'c01:{seed}', k, feats)
+        p = progrand.random_program('c01:0', k, feats)   # the program family is fixed; the seed does not enter
         p['profile'] = json.dumps(feats, sort_keys=True)
         progs.append(p)
     ctx.rule.append(
-        f'random: {n} seeded typed programs (index k is the same program in both tiers) over '
+        f'random: the first {n} programs of a fixed family of typed generated programs (quick is a prefix of thorough; VERIF_SEED does not change the family) over '
         f'assignment, PRINT, IF block/ELSEIF/ELSE, single-line IF, WHILE, DO/LOOP x5, FOR/STEP, '
         f'SELECT CASE (values, ranges, IS), EXIT x4, forward GOTO, GOSUB/RETURN, SUB/FUNCTION with '
         f'by-reference/by-value/parenthesised arguments and recursion, static arrays rank 1-2, '
@@ -423,7 +435,7 @@ def random_suite(ctx, rn, tier, seed):
     for p in progs:
         ctx.bump('profile:' + p['profile'])
     ctx.count('random', len(progs) * 6, {p['index'] for p in progs})
-    ctx.sample({'suite': 'random', 'program': progs[1]['src'][:1500]})
+    ctx.sample({'suite': 'random', 'program': progs[min(1, len(progs) - 1)]['src'][:1500]})
 
 
 def probe_suite(ctx, rn):
